@@ -30,6 +30,9 @@ pub enum LineKind {
     Cmd,
     Empty,
     Comment,
+    /// a pre-processor line (`!print ...`): acts while the text is parsed, occupies a line like any other and does
+    /// nothing when the runner passes it
+    PreProcess,
 }
 
 #[derive(Serialize, Deserialize, Clone, Debug, PartialEq)]
@@ -106,6 +109,7 @@ pub fn render(lines: &[Line]) -> String {
         match l.kind {
             LineKind::Empty => {}
             LineKind::Comment => text.push_str("# a comment"),
+            LineKind::PreProcess => text.push_str("!print pp"),
             LineKind::Cmd => {
                 let mut parts: Vec<String> = vec![];
                 if let Some(lb) = &l.label {
@@ -663,6 +667,7 @@ pub fn generate_case(rng: &mut Rng) -> Case {
         let kind = match rng.below(12) {
             0 => LineKind::Empty,
             1 => LineKind::Comment,
+            2 if rng.chance(1, 3) => LineKind::PreProcess,
             _ => LineKind::Cmd,
         };
         if kind != LineKind::Cmd {
